@@ -167,7 +167,7 @@ def c09(ctx):
 
 
 
-def _hist(ctx, mode, img, rule, n_quick, n_thorough, as_propfail=False):
+def _hist(ctx, mode, img, rule, n_quick, n_thorough, as_propfail=False, extra_args=()):
     res = Result()
     res.rule = rule
     with ctx:
@@ -178,7 +178,7 @@ def _hist(ctx, mode, img, rule, n_quick, n_thorough, as_propfail=False):
             n = n_quick if ctx.tier == "quick" else n_thorough
             tmo = 900 if ctx.tier == "quick" else (ctx.budget_s or 3000)
             runs = run_sharded(ctx, "c04", shards, lambda i: ["-seed", str(ctx.seed * 1000 + i), "-n", str(n // shards), "-img", img,
-                                                             "-dir", "{dir}"] + (["-txs", "40", "-ops", "40"] if ctx.tier == "thorough" and i % 4 == 0 else []),
+                                                             "-dir", "{dir}"] + list(extra_args) + (["-txs", "40", "-ops", "40"] if ctx.tier == "thorough" and i % 4 == 0 else []),
                                tmo, oracle_mode=mode)
         for r in runs:
             absorb(res, ctx.pid, *r)
@@ -229,4 +229,29 @@ def c05(ctx):
     return res
 
 
-PLUGINS = {"C05": c05, "C09": c09, "C04": c04, "C07": c07, "C12": c12}
+PG_RULE = HIST_RULE + ("; recorded with every WriteAt/fdatasync/truncate/mmap call and every freelist operation of the DB (verif hooks) and one file image per commit; "
+                       "the extracted Pager.pstep is fed the real freelist events as labels (its guards = tree_ok and release safety), its free/pending sets are compared with "
+                       "the real freelist after every writer begin/commit/rollback, its version page set with the independent decoder's, its allocated set with the pages actually written")
+
+
+def c06(ctx):
+    """C06 no overwrite of visible pages: (S) every real WriteAt is intersected with the decoder-computed page sets of the newest committed state and of every
+    open reader's state, meta writes must hit the other slot; (K) Pager.v replayed on the real freelist events. Domain: files made by Open + histories."""
+    return _hist(ctx, "c06", "commit+io", PG_RULE, 240, 16000)
+
+
+def c10(ctx):
+    """C10 reclamation: (S) after every writer begin with no reader open nothing is pending; no page of an open reader's version is ever in the free list; published
+    FreePageN/PendingPageN equal the live freelist; (K) Pager.v replayed on the real freelist events (free and pending sets compared after every step)."""
+    return _hist(ctx, "c10", "commit+io", PG_RULE, 240, 16000)
+
+
+def c02(ctx):
+    """C02 snapshot isolation: every open read transaction is fully re-dumped (recursive buckets, values, sequences, cursor order) after every writer event and compared
+    with the Spec.v state of its begin; histories always hold readers of different ages across commits, rollbacks, page reuse, grow and remap (blocked commits are
+    observed, the readers the harness then closes are inputs)."""
+    return _hist(ctx, "c04", "none", HIST_RULE + "; every history holds up to 3 readers open and re-dumps each after every writer event", 400, 30000,
+                 as_propfail=True, extra_args=("-readers",))
+
+
+PLUGINS = {"C02": c02, "C06": c06, "C10": c10, "C05": c05, "C09": c09, "C04": c04, "C07": c07, "C12": c12}
